@@ -1,5 +1,8 @@
 import TongoProofs.C09
+import TongoProofs.Lemmas.TlCompact
 import TongoGen.LiteApi
+import TongoGen.TlLength
+import TongoProofs.Lemmas.GenTiesB
 /-! Property C10 — the lite-server bindings speak exactly the wire format of `lite_api.tl`.
 
 `Gen.liteApi` is the schema of the CURRENT `liteclient/lite_api.tl` (translator X3, regenerated on every run, tied to
@@ -137,20 +140,104 @@ theorem answer_wrong_tag (S : Schema) (f : String) (d e c : Decl) (hf : S.func? 
     decodeAnswer S fuel f (le 4 tag ++ rest) = .err "invalid tag" := by
   simp [decodeAnswer, hf, he, hc, readLE4 tag rest ht, h1, h2]
 
-/-! ### Constructor ids
+/-- `liteServer.error#bba9e148 code:int message:string = liteServer.Error` -/
+def errorDecl : Decl :=
+  { ctor := "liteServer.error", id := 0xbba9e148, result := "liteServer.Error",
+    fields := [{ name := "code", cond := none, ty := .int }, { name := "message", cond := none, ty := .string }] }
 
-That every id of lite_api.tl equals the CRC-32 of its declaration text is a finite computation over the regenerated
-schema; it is evaluated on every run by the model driver (spec op `tl.crcid`, one line per declaration) rather than by
-the kernel (≈ 1 min). On the current file it FAILS for three declarations (known findings) and for one id pinned
-upstream. Below: the kernel-checked instances for the constants the hand-written client code uses, and the witnesses of
-the failure. -/
+/-- regenerated fact: lite_api.tl declares `liteServer.error` as above -/
+theorem liteapi_error_decl : liteApi.ctor? errorCtor = some errorDecl := by decide +kernel
 
-/-- the full statement (not proved: false on the current file, see `ctor_id_is_crc32_counterexample`) -/
-def CtorIdIsCrc32 : Prop := ∀ d ∈ liteApi.types ++ liteApi.funcs, crcOf d = d.id
+/-- regenerated fact (the function table of the current lite_api.tl): no constructor of any function's result type
+carries the id of `liteServer.error`, so the error test of the generated methods never shadows a result -/
+theorem liteapi_no_error_id_clash :
+    liteApi.funcs.all (fun d => (liteApi.ctorsOf d.result).all (fun c => c.id != errorDecl.id)) = true := by
+  decide +kernel
+
+/-- **answer_decodes for every function of lite_api.tl** (instantiated over the regenerated function table): for each
+of the declared functions, (1) the encoding of ANY value of its result type, followed by anything, is returned by the
+generated method as that value; (2) the encoding of any `liteServer.error` is returned as that error. -/
+theorem liteapi_answer_decodes (f : String) (d : Decl) (hf : liteApi.func? f = some d) (fuel : Nat) (rest : Bytes) :
+    (∀ c fs bs, encode liteApi (.boxed d.result) (.sum c fs) = some bs → depthList fs ≤ fuel →
+        decodeAnswer liteApi fuel f (bs ++ rest) = .ok (.result (.sum c fs))) ∧
+    (∀ evs eb, encodeFields liteApi errorDecl.fields [] evs = some eb → depthList evs ≤ fuel →
+        decodeAnswer liteApi fuel f (le 4 errorDecl.id ++ eb ++ rest) = .ok (.serverError evs)) := by
+  have h := answer_decodes liteApi wf_liteapi f d errorDecl hf liteapi_error_decl fuel rest
+  refine ⟨fun c fs bs henc hfuel => h.1 c fs bs henc hfuel ?_, fun evs eb henc hfuel => h.2 evs eb henc hfuel (by decide)⟩
+  intro cd hcd
+  have hmem : d ∈ liteApi.funcs := List.mem_of_find?_eq_some hf
+  have hall := liteapi_no_error_id_clash
+  simp only [List.all_eq_true, bne_iff_ne, ne_eq] at hall
+  apply hall d hmem cd
+  have h1 := List.mem_of_find?_eq_some hcd
+  have h2 := List.find?_some hcd
+  simp only [Bool.and_eq_true, beq_iff_eq] at h2
+  simp [Schema.ctorsOf, h1, h2.1]
+
+/-- every function of lite_api.tl has a client-side answer path: its result type is declared (so (1) above is not
+vacuous), and the number of functions covered -/
+theorem liteapi_functions_covered :
+    liteApi.funcs.length = liteApiFuncsC.length ∧
+    liteApi.funcs.all (fun d => !(liteApi.ctorsOf d.result).isEmpty) = true := by
+  refine ⟨by simp [liteApi, liteApiFuncs], ?_⟩
+  have h := wf_liteapi
+  unfold wfSchemaB at h
+  simp only [Bool.and_eq_true] at h
+  exact h.2
+
+/-! ### The regenerated schema value and its constructor ids
+
+Translator X3 emits the declarations in compact form (`DeclC`: names as character codes) so that the kernel can render
+and hash them; `Lemmas/TlCompact.lean` + `Lemmas/Crc32.lean` transfer the kernel-evaluated facts to `Gen.liteApi`. -/
+
+theorem liteapi_decls : liteApi.types ++ liteApi.funcs = (liteApiTypesC ++ liteApiFuncsC).map DeclC.toDecl := by
+  simp [liteApi, liteApiTypes, liteApiFuncs]
+
+/-- the Lean value `Gen.liteApi` is the schema its canonical text denotes (the text the model's own parser prints for
+the raw file: op `tl.schema`) -/
+theorem liteapi_render :
+    (liteApi.types ++ liteApi.funcs).map (fun d => (renderDecl d).map Char.toNat) = liteApiCodes := by
+  rw [liteapi_decls, List.map_map, ← liteapi_render_c]
+  apply List.map_congr_left
+  intro c hc
+  have hok := liteapi_compact_ok
+  simp only [List.all_eq_true] at hok
+  exact renderDecl_codes c (hok c hc)
+
+theorem strOf_codes_of_string (s : String) : strOf (s.toList.map Char.toNat) = s := by
+  simp [strOf, List.map_map, Function.comp_def, Char.ofNat_toNat]
+
+/-- **ctor_id_is_crc32**: every id spelled in lite_api.tl, except those of the explicit exception list
+`crcExceptions`, is the CRC-32 (IEEE) of its declaration text without `#id`, `;` and parentheses. The regenerated
+obligation `Gen.liteapi_ids_crc32` evaluates the table-driven CRC over character codes in the kernel; it is carried over
+by `crc32T_eq_crc32N` (table = bitwise, all inputs) and `crcOf_toDecl`. -/
+theorem ctor_id_is_crc32 (d : Decl) (hd : d ∈ liteApi.types ++ liteApi.funcs) (hx : d.ctor ∉ crcExceptions) :
+    crcOf d = d.id := by
+  rw [liteapi_decls] at hd
+  obtain ⟨c, hc, rfl⟩ := List.mem_map.mp hd
+  have hok := liteapi_compact_ok
+  have hid := liteapi_ids_crc32
+  simp only [List.all_eq_true] at hok hid
+  rw [crcOf_toDecl c (hok c hc)]
+  have := hid c hc
+  simp only [Bool.or_eq_true, beq_iff_eq] at this
+  rcases this with h | h
+  · exfalso
+    apply hx
+    simp only [crcExceptionCodes, List.contains_eq_mem, List.mem_map, decide_eq_true_eq] at h
+    obtain ⟨s, hs, hsc⟩ := h
+    have : (DeclC.toDecl c).ctor = s := by
+      simp only [DeclC.toDecl, ← hsc, strOf_codes_of_string]
+    rw [this]; exact hs
+  · exact h
+
+/-- the exception list is not vacuous padding: each entry names a declaration of the current schema -/
+theorem crc_exceptions_declared : crcExceptionCodes.all (fun n => (liteApiTypesC ++ liteApiFuncsC).any (·.ctor == n)) = true := by
+  decide +kernel
 
 set_option maxRecDepth 100000 in
 /-- the magic numbers of liteclient/client.go are the CRC-32 of the declarations quoted next to them -/
-theorem ctor_id_is_crc32_partial :
+theorem ctor_id_is_crc32_client_constants :
     crcOf adnlQueryDecl = adnlQueryDecl.id ∧ crcOf adnlAnswerDecl = adnlAnswerDecl.id ∧
     crcOf liteServerQueryDecl = liteServerQueryDecl.id ∧
     crcOf accountIdDecl = accountIdDecl.id ∧ crcOf blockIdExtDecl = blockIdExtDecl.id := by decide +kernel
@@ -187,6 +274,22 @@ theorem handwritten_types_spec :
     simp [encode, ha, accountIdDecl, encodeFields, present?, hw, hl, accountIdTL]
   · intro wc shard seqno root file hw hs hq hr hf
     simp [encode, hb, blockIdExtDecl, encodeFields, present?, hw, hs, hq, hr, hf, blockIdExtTL]
+
+/-! ### the length prefix of `bytes`/`string`: regenerated Go code against the model -/
+
+/-- tie (X4, regenerated from tl/encoder.go / liteclient/client.go): the Go function `tl.EncodeLength`, translated to
+`BitVec 64` arithmetic on every run (`Gen.TlLength.EncodeLength`), yields on every non-negative `int` exactly the bytes
+of the model's `Tl.encLen` (one byte below 254, otherwise `254` and the three low bytes little-endian), which is the
+length prefix used by `encBytes` in every theorem above. -/
+theorem gen_EncodeLength (n : Nat) (h : n < 2 ^ 63) :
+    Gen.TlLength.EncodeLength (BitVec.ofNat 64 n) = (Tl.encLen n).map UInt8.toBitVec :=
+  GenTies.gen_EncodeLength n h
+
+/-- tie (X4, regenerated from tl/encoder.go / liteclient/client.go): liteclient's private copy `encodeLength` is the
+same function as `tl.EncodeLength` on every `int` (hence also tied to `Tl.encLen` by `gen_EncodeLength`). -/
+theorem gen_encodeLength_liteclient (i : BitVec 64) :
+    Gen.TlLength.encodeLengthLiteclient i = Gen.TlLength.EncodeLength i :=
+  GenTies.gen_encodeLength_liteclient i
 
 /-! ### non-vacuity (tests on literals) -/
 
